@@ -204,6 +204,14 @@ def genLabel17 (seed : Nat) (exhaustLen : Nat) (randomCases : Nat) : Array Strin
   for n in [0, 1, 9, 10, 99, 9999999, 10000000, 99999999, 100000000, 2 ^ 32, 2 ^ 63, 2 ^ 64 - 1] do
     out := out.push s!"label print {showLabelTok (.alpha n)}"
     out := out.push s!"label kid {showTextTok (Lb.print (.alpha n))} {showLabelTok (.alpha n)}"
+  -- distinct texts give distinct labels, as `==` sees them (C17): an edge bound under one name is not found under another — all
+  -- ordered pairs of names that are prefixes of one another, differ in the last character only, or look alike
+  let family : List String := ["fo", "foo", "foobar", "fooba", "ab", "abc", "abcdefg", "abcdefgh", "x", "xy", "α1", "α10", "ρ", "ρρ", "1", "12"]
+  for t1 in family do
+    for t2 in family do
+      match Lb.parse t2.toList with
+      | some l2 => out := out.push s!"label kid {showTextTok t1.toList} {showLabelTok l2}"
+      | none => pure ()
   let noBlank := labelAlphabet.filter (· ≠ ' ')
   for _ in [0:randomCases] do
     let (r', len) := rng.below 7
